@@ -635,6 +635,10 @@ func dependsOnCut(v ssa.Value, isTarget func(ssa.Value) bool, cut func(ssa.Value
 		case *ssa.UnOp:
 			if x.Op == token.MUL {
 				if a, ok := x.X.(*ssa.Alloc); ok {
+					// stores into fields/elements of the local (struct or array literal) feed the loaded value too
+					if allocPartsDepend(a, walk) {
+						return true
+					}
 					if vals, ok := reachDefs(a, x); ok && len(vals) > 0 {
 						for _, sv := range vals {
 							if walk(sv) {
@@ -664,6 +668,10 @@ func dependsOnCut(v ssa.Value, isTarget func(ssa.Value) bool, cut func(ssa.Value
 				return walk(x.Call.Value)
 			}
 			return walk(x.Call.Value)
+		case *ssa.Slice:
+			if a, ok := x.X.(*ssa.Alloc); ok && allocPartsDepend(a, walk) {
+				return true
+			}
 		case *ssa.Parameter, *ssa.Const, *ssa.Global, *ssa.FreeVar, *ssa.Function, *ssa.Builtin:
 			return false
 		}
@@ -1152,4 +1160,25 @@ func isPkgInit(f *ssa.Function) bool {
 		return false
 	}
 	return f.Name() == "init" || strings.HasPrefix(f.Name(), "init#")
+}
+
+// allocPartsDepend: does any value stored into a field/element of local alloc a satisfy walk?
+func allocPartsDepend(a *ssa.Alloc, walk func(ssa.Value) bool) bool {
+	for _, ref := range *a.Referrers() {
+		switch u := ref.(type) {
+		case *ssa.FieldAddr:
+			for _, r2 := range *u.Referrers() {
+				if st, ok := r2.(*ssa.Store); ok && st.Addr == ssa.Value(u) && walk(st.Val) {
+					return true
+				}
+			}
+		case *ssa.IndexAddr:
+			for _, r2 := range *u.Referrers() {
+				if st, ok := r2.(*ssa.Store); ok && st.Addr == ssa.Value(u) && walk(st.Val) {
+					return true
+				}
+			}
+		}
+	}
+	return false
 }
